@@ -251,6 +251,30 @@ def run(ctx):
     ctx.count("types_with_skippable_fields", len(skip))
     ctx.count("types_with_required_fields", len(req))
     ctx.floor("derived types with skippable fields", len(skip), 50)
+    # ---- serde visitors accept transient strings -----------------------------------------------------------------------------------
+    ctx.rule("C18.visitors", "every serde Visitor of the workspace that accepts a string (or bytes) in a specialised form (visit_borrowed_str, "
+                             "visit_string / visit_borrowed_bytes, visit_byte_buf) also implements the general visit_str / visit_bytes: serde_json hands "
+                             "escaped strings (e.g. an object key written with \\u0070) over as transient &str, which falls to the default `invalid type` "
+                             "error otherwise")
+    vis = {}
+    for pth in w.fn_index:
+        mm = re.match(r"^<(.+) as serde_core::de::Visitor<'[\w_]+>>::(visit_\w+)$", pth)
+        if mm:
+            vis.setdefault(mm.group(1), set()).add(mm.group(2))
+    n_vis = 0
+    for ty, meths in sorted(vis.items()):
+        for special, general in ((("visit_borrowed_str", "visit_string"), "visit_str"), (("visit_borrowed_bytes", "visit_byte_buf"), "visit_bytes")):
+            if any(x in meths for x in special):
+                n_vis += 1
+                ctx.check(general in meths, "C18.visitors", f"C18.visitors:{ty}:{general}", w.where(w.fn(f"<{ty} as serde_core::de::Visitor<'de>>::{[x for x in special if x in meths][0]}")) if False else "",
+                          bad_msg=f"{ty} implements {sorted(x for x in special if x in meths)} but not {general}: strings that the deserializer cannot borrow "
+                                  f"from the input (escaped JSON strings) are rejected")
+    str_visitors = [t for t, ms in vis.items() if "visit_str" in ms]
+    ctx.floor("visitors accepting strings", len(str_visitors), 100)
+    # the key visitor of Raw::get_field in particular
+    kv = [t for t in vis if t.endswith("get_field::FieldVisitor<'_>") or "get_field::FieldVisitor" in t]
+    ctx.check(bool(kv) and all("visit_str" in vis[t] for t in kv), "C18.visitors", "C18.visitors:Raw::get_field:key-visitor", "",
+              bad_msg=f"the key visitor of Raw::get_field implements {sorted(vis[kv[0]]) if kv else '?'}, not visit_str: a top-level key written with an escape makes get_field fail")
     if ctx.tier == "thorough":
         from .. import witness
         witness.check(ctx, "C18.witness", {"C18RawFields": "Raw<T> fields are accessible from another crate: the JSON text can be replaced without going through from_json/new"})
